@@ -2,6 +2,7 @@ package main
 
 import (
 	"fmt"
+	"io/ioutil"
 	"net/http"
 	neturl "net/url"
 	"strconv"
@@ -166,6 +167,16 @@ func TestVerifC16Stress(t *testing.T) {
 	state.Config.Base.AllowedAuthBackendsForWebUI = []string{proto.AuthTypePassword}
 	state.Config.Base.AllowedAuthBackendsForCerts = []string{proto.AuthTypePassword}
 	go state.performStateCleanup(1)
+	// users with a real (software token) U2F registration, so that sign-request stores a challenge
+	// and the finish handlers get as far as looking it up
+	for i := 0; i < 4; i++ {
+		reg := vfNewToken(t, fmt.Sprintf("stress%d", i)).registration(t)
+		p := &userProfile{U2fAuthData: map[int64]*u2fAuthData{1: {Enabled: true, Name: "n0", Registration: reg}},
+			TOTPAuthData: map[int64]*totpAuthData{}, WebauthnData: map[int64]*webauthAuthData{}}
+		if err := state.SaveUserProfile(fmt.Sprintf("user%d", i), p); err != nil {
+			t.Fatal(err)
+		}
+	}
 	done := make(chan struct{})
 	n := 0
 	for _, line := range vio.ops {
@@ -184,7 +195,7 @@ func TestVerifC16Stress(t *testing.T) {
 				},
 				func() {
 					req := vfFormPost(u2fSignResponsePath, neturl.Values{})
-					req.Body = http.NoBody
+					req.Body = ioutil.NopCloser(strings.NewReader("{}"))
 					req.AddCookie(vfAuthCookie(t, state, user, AuthTypePassword))
 					vfServe(state.u2fSignResponse, req)
 				},
@@ -192,6 +203,11 @@ func TestVerifC16Stress(t *testing.T) {
 					req := vfFormPost(webAuthnAuthBeginPath, neturl.Values{})
 					req.AddCookie(vfAuthCookie(t, state, user, AuthTypePassword))
 					vfServe(state.webauthnAuthLogin, req)
+				},
+				func() {
+					req := vfFormPost(webAuthnAuthFinishPath, neturl.Values{})
+					req.AddCookie(vfAuthCookie(t, state, user, AuthTypePassword))
+					vfServe(state.webauthnAuthFinish, req)
 				},
 				func() { vfServe(state.readyzHandler, vfFormPost(readyzPath, neturl.Values{})) },
 				func() { state.isUnsealed() },
